@@ -400,7 +400,42 @@ pub fn add_sections(rep: &mut Report, prop: &str, thorough: bool, conformant_onl
     }
     #[cfg(feature = "crypto")]
     {
+        // object identifiers through generation AND parse-back: every value of the first subidentifier octet (arcs 0.0..0.39,
+        // 1.0..1.39, 2.0..2.175), second arcs of 2 beyond it, and later arcs at the base-128 boundaries, as the type of a
+        // subject attribute and of an otherName alternative name
         let zoo = load_zoo();
+        let z = zoo.iter().find(|z| z.kind == KeyKind::Ed25519 && z.format == KeyFormat::Pkcs8 && z.name.contains("_1")).expect("ed25519_1");
+        if let Ok(kp) = rc_load(z, Alg::Ed25519) {
+            let kpub = z.key_pub(Alg::Ed25519);
+            let mut oids: Vec<Vec<u64>> = Vec::new();
+            for b in 0..=39u64 {
+                oids.push(vec![0, b, 5]);
+                oids.push(vec![1, b, 5]);
+            }
+            for b in (0..=300u64).chain([16303, 16304, 2097071, 2097072, 4294967295, 4294967296, u64::MAX - 80]) {
+                oids.push(vec![2, b, 5]);
+                oids.push(vec![2, b]);
+            }
+            for t in [0u64, 1, 127, 128, 16383, 16384, 2097151, 2097152, 4294967295, 4294967296, u64::MAX] {
+                oids.push(vec![1, 3, 6, 1, 4, 1, 55555, t]);
+                oids.push(vec![2, 47, t, 1]);
+            }
+            let sec = Section::new("csr/roundtrip/object identifiers", &format!("{} object identifiers (every first-octet value; second arcs of joint-iso-itu-t up to 300 and at the length boundaries; later arcs at the base-128 boundaries) as custom attribute type and as otherName type: the request says them (reference decoder) and from_der returns them", oids.len())).with_deadline(cap);
+            run::sweep_cases(&sec, &oids, &|o| format!("oid {:?}", o), &|o| {
+                let mut st = CertState::default();
+                st.dn = DnSpec(vec![(DnTypeSpec::Custom(o.clone()), StrKind::Utf8, "v".into()), (DnTypeSpec::Cn, StrKind::Utf8, "oid sweep".into())]);
+                st.sans = vec![SanSpec::Other(o.clone(), "x".into()), SanSpec::Dns("after.example".into())];
+                let c = CsrCase { st, attrs: vec![] };
+                let mut out = judge(prop, &known, &c, &kp, &kpub);
+                let rt = round_trip(&c, &kp, &kpub);
+                let (v, k) = split_known(&known, rt.findings.into_iter().filter(|f| relevant(prop, f)).collect(), &|p| pred(p, &c));
+                out.findings.extend(v);
+                out.known.extend(k);
+                out.transitions += rt.transitions;
+                out
+            });
+            rep.add(sec);
+        }
         for z in zoo.iter().filter(|z| z.format == KeyFormat::Pkcs8 && backend_supports(z.kind, z.format) && z.name.contains("_1") && (thorough || !z.kind.is_slow())) {
             let algs: Vec<Alg> = if z.kind.is_rsa() { vec![Alg::RsaSha256, Alg::RsaSha384, Alg::RsaSha512] } else { vec![z.kind.natural_alg()] };
             for a in algs {
